@@ -406,11 +406,13 @@ class Model(Object):
             new_met = metabolite.__class__()
             for attr, value in metabolite.__dict__.items():
                 if attr not in do_not_copy_by_ref:
-                    new_met.__dict__[attr] = (
-                        copy(value)
-                        if attr in ("formula", "notes", "_annotation")
-                        else value
-                    )
+                    # notes and annotations hold nested lists and dicts
+                    if attr in ("notes", "_annotation"):
+                        new_met.__dict__[attr] = deepcopy(value)
+                    elif attr == "formula":
+                        new_met.__dict__[attr] = copy(value)
+                    else:
+                        new_met.__dict__[attr] = value
             new_met._model = new
             new.metabolites.append(new_met)
 
@@ -419,11 +421,12 @@ class Model(Object):
             new_gene = gene.__class__(None)
             for attr, value in gene.__dict__.items():
                 if attr not in do_not_copy_by_ref:
-                    new_gene.__dict__[attr] = (
-                        copy(value)
-                        if attr in ("formula", "notes", "_annotation")
-                        else value
-                    )
+                    if attr in ("notes", "_annotation"):
+                        new_gene.__dict__[attr] = deepcopy(value)
+                    elif attr == "formula":
+                        new_gene.__dict__[attr] = copy(value)
+                    else:
+                        new_gene.__dict__[attr] = value
             new_gene._model = new
             new.genes.append(new_gene)
 
@@ -433,7 +436,10 @@ class Model(Object):
             new_reaction = reaction.__class__()
             for attr, value in reaction.__dict__.items():
                 if attr not in do_not_copy_by_ref:
-                    new_reaction.__dict__[attr] = copy(value)
+                    if attr in ("notes", "_annotation"):
+                        new_reaction.__dict__[attr] = deepcopy(value)
+                    else:
+                        new_reaction.__dict__[attr] = copy(value)
             new_reaction._model = new
             new.reactions.append(new_reaction)
             # update awareness
@@ -451,7 +457,10 @@ class Model(Object):
             new_group: Group = group.__class__(group.id)
             for attr, value in group.__dict__.items():
                 if attr not in do_not_copy_by_ref:
-                    new_group.__dict__[attr] = copy(value)
+                    if attr in ("notes", "_annotation"):
+                        new_group.__dict__[attr] = deepcopy(value)
+                    else:
+                        new_group.__dict__[attr] = copy(value)
             new_group._model = new
             new.groups.append(new_group)
         for group in self.groups:
